@@ -368,7 +368,7 @@ private:
                                 {
                                     first = false;
                                 }
-                                sink_.append(it->second.data(), it->second.length());
+                                write_column_name(it->second);
                             }
                         }
                         sink_.append(line_delimiter_.data(), line_delimiter_.length());
@@ -403,7 +403,7 @@ private:
                             {
                                 sink_.push_back(field_delimiter_);
                             }
-                            sink_.append(it->second.data(), it->second.length());
+                            write_column_name(it->second);
                             first = false;
                         }
                     }
@@ -648,7 +648,7 @@ private:
                                 {
                                     sink_.push_back(field_delimiter_);
                                 }
-                                sink_.append(it->second.data(), it->second.length());
+                                write_column_name(it->second);
                                 ++col;
                             }
                         }
@@ -710,7 +710,7 @@ private:
                                 {
                                     sink_.push_back(field_delimiter_);
                                 }
-                                sink_.append(it->second.data(), it->second.length());
+                                write_column_name(it->second);
                                 ++col;
                             }
                         }
@@ -1311,6 +1311,26 @@ private:
         }
         ++stack_.back().count_;
         JSONCONS_VISITOR_RETURN;
+    }
+
+    // Column names in a header are quoted when (and only when) they could not be read back otherwise
+    void write_column_name(const string_type& name)
+    {
+        const CharT* s = name.data();
+        const std::size_t length = name.length();
+        if (std::char_traits<CharT>::find(s, length, field_delimiter_) != nullptr || std::char_traits<CharT>::find(s, length, quote_char_) != nullptr ||
+            std::char_traits<CharT>::find(s, length, CharT('\n')) != nullptr || std::char_traits<CharT>::find(s, length, CharT('\r')) != nullptr)
+        {
+            string_type str{alloc_};
+            str.push_back(quote_char_);
+            escape_string(s, length, quote_char_, quote_escape_char_, true, str);
+            str.push_back(quote_char_);
+            sink_.append(str.data(), str.length());
+        }
+        else
+        {
+            sink_.append(s, length);
+        }
     }
 
     void write_string_value(const string_view_type& value, string_type& str)
